@@ -280,6 +280,10 @@ def oracle(ctx, obs):
 def run(ctx):
     binp = build_harness(ctx)
     msgs, spans = regen(ctx, ["config_tables", "config_sites", "config_steps", "spectrum_steps"])
+    try:
+        ctx.cov["repair_flags"] = cc.repair_flags()     # also exported to the harness (CFG_REPAIR_FLAGS)
+    except OSError:
+        ctx.cov["repair_flags"] = {}
     for m in msgs:
         ctx.proof_failures.append(("Gen/Config*.v", "translator", m))
     proved = (not msgs) and prove(ctx, "C20", extra_targets=["Model/ConfigCheck.vo"])
